@@ -1,3 +1,289 @@
 import Driver.Common
--- stub driver for C13 (replaced when the property's model is built)
-def main (args : List String) : IO UInt32 := Driver.main' (fun _ => "bad-op") (fun _ _ => "fail bad-op") args
+import Driver.CodecIO
+import GilVerif.Model.C13
+open Driver Driver.CodecIO GilVerif.Codec GilVerif.Model.C13
+
+/-
+  op lines (file bytes as hex; an image observation is `<w> <h> <pixels hex>` | `err:io` | `ub`)
+    crop  <fmt> <dst> <tlx> <tly> <dx> <dy> <file>      F <img> | fn <img> | fp <img> | is <img>
+    paths <fmt> <dst> <file>                            img <img> | view <img> <canary> | any <type> <img> | scan <img> | info <w> <h> <depth>
+    conv  <fmt> <nat> <dst> <tlx> <tly> <dx> <dy> <file>  nat <img> | conv <img> | ref <img> | cview <img> <canary>
+    small <fmt> <dst> <vw> <vh> <tlx> <tly> <dx> <dy> <file>   <err:io|ok> <canary>
+  fmt: bmp | bmprle (bmp whose reader is run in a child: it may overrun) | pnm | targa;  dst / nat: gray1 | gray8 | rgb8 | rgba8
+-/
+
+/-- an image as flat channel bytes -/
+structure Flat where
+  w : Nat
+  h : Nat
+  px : Bytes
+  deriving DecidableEq
+
+inductive Obs where
+  | ok (f : Flat)
+  | err
+  | ub
+  deriving DecidableEq
+
+def Obs.show : Obs → String
+  | .ok f => toString f.w ++ " " ++ toString f.h ++ " " ++ hexOf f.px
+  | .err => "err:io"
+  | .ub => "ub"
+
+def flatOf {α} (f : PixFmt α) (i : Img α) : Flat := ⟨i.w, i.h, bytesOfImg f i⟩
+def obsOfRes {α} (f : PixFmt α) : Res α → Obs
+  | .ok i => .ok (flatOf f i)
+  | .err => .err
+  | .ub => .ub
+def obsOfOpt {α} (f : PixFmt α) : Option (Img α) → Obs
+  | some i => .ok (flatOf f i)
+  | none => .err
+
+def chanCount : String → Nat
+  | "gray8" => 1 | "gray1" => 1 | "rgb8" => 3 | "rgba8" => 4 | _ => 0
+
+def initPx : Rgba8 := ⟨0xEE, 0xEE, 0xEE, 0xEE⟩
+
+/-- read_image / read_view without conversion: `fmt` file into an image of type `dst` -/
+def readNative (fmt dst : String) (file : Bytes) (s : Settings) : Obs :=
+  match fmt, dst with
+  | "bmp", "rgb8" | "bmprle", "rgb8" => obsOfRes rgb8 (Res.map (mapImg dropAlpha) (bmpRead initPx file s (some 24)))
+  | "bmp", "rgba8" | "bmprle", "rgba8" => obsOfRes rgba8 (bmpRead initPx file s (some 32))
+  | "bmp", "gray8" | "bmprle", "gray8" =>
+      -- gray8 is "read supported" for bmp but is_allowed never accepts it (8 bits ≠ 24 / 32); a bad header fails first
+      .err
+  | "pnm", "gray8" => obsOfRes gray8 (pnmRead gray8 false false file s)
+  | "pnm", "rgb8" => obsOfRes rgb8 (pnmRead rgb8 true false file s)
+  | "pnm", "gray1" => obsOfOpt bit8 (decodePnmMono file s)
+  | "targa", "rgb8" => obsOfOpt rgb8 (decodeTga bgr8 file s)
+  | "targa", "rgba8" => obsOfOpt rgba8 (decodeTga bgra8 file s)
+  | _, _ => .err
+
+def kindOf : String → Option Kind
+  | "gray8" => some .gray8 | "rgb8" => some .rgb8 | "rgba8" => some .rgba8 | _ => none
+
+def convertFlat (src dst : Kind) (f : Flat) : Flat :=
+  ⟨f.w, f.h, (chunk src.size (f.w * f.h) f.px).flatMap (colorConvert src dst)⟩
+
+/-- read_and_convert_image / read_and_convert_view into an image of kind `kd` -/
+def readConv (fmt : String) (kd : Kind) (file : Bytes) (s : Settings) : Obs :=
+  let conv (src : Kind) (o : Obs) : Obs := match o with
+    | .ok f => .ok (convertFlat src kd f)
+    | o => o
+  match fmt with
+  | "bmp" | "bmprle" =>
+    match bmpReadHeader file with
+    | none => .err
+    | some (info, _) =>
+      match obsOfRes rgba8 (bmpRead initPx file s none) with
+      | .ok f => .ok ⟨f.w, f.h, (chunk 4 (f.w * f.h) f.px).flatMap (bmpConvPixel info.bpp kd)⟩
+      | o => o
+  | "pnm" =>
+    match pnmReadHeader file with
+    | none => .err
+    | some (info, _) =>
+      if info.type = 3 ∨ info.type = 6 then conv .rgb8 (obsOfRes rgb8 (pnmRead rgb8 true true file s))
+      else if info.type = 4 then .err      -- not generated
+      else conv .gray8 (obsOfRes gray8 (pnmRead gray8 false true file s))
+  | "targa" =>
+    match tgaReadHeader file with
+    | none => .err
+    | some info => if info.bpp = 24 then conv .rgb8 (obsOfOpt rgb8 (decodeTga bgr8 file s)) else conv .rgba8 (obsOfOpt rgba8 (decodeTga bgra8 file s))
+  | _ => .err
+
+def settingsOf (tlx tly dx dy : Nat) : Settings := { tlx := tlx, tly := tly, dx := dx, dy := dy }
+
+/-- the image type the dynamic-image reader constructs (format checkers of */detail/read.hpp) out of any_image<gray8, rgb8, rgba8> -/
+def anyType (fmt : String) (file : Bytes) : Option String :=
+  match fmt with
+  | "bmp" | "bmprle" => (bmpReadHeader file).map fun (info, _) => if info.bpp < 32 then "rgb8" else "rgba8"
+  | "targa" => (tgaReadHeader file).map fun info => if info.bpp < 32 then "rgb8" else "rgba8"
+  | "pnm" => (pnmReadHeader file).bind fun (info, _) =>
+      if info.type = 2 ∨ info.type = 5 then some "gray8" else if info.type = 3 ∨ info.type = 6 then some "rgb8" else none
+  | _ => none
+
+/-- scanline reader: all rows, decoded with the file's pixel layout into `dst` order; `none` = the reader refuses the variant -/
+def scanAll (fmt dst : String) (file : Bytes) : Obs :=
+  match fmt with
+  | "bmp" | "bmprle" =>
+    match bmpReadHeader file with
+    | none => .err
+    | some (info, _) =>
+      let w := info.width.toNat; let h := info.height.toNat
+      if info.bpp = 24 ∧ dst = "rgb8" then
+        .ok ⟨w, h, (List.range h).flatMap fun y => encRow rgb8 (decRow bgr8 w (bmpScanRow file info y))⟩
+      else if info.bpp = 32 ∧ dst = "rgba8" then
+        .ok ⟨w, h, (List.range h).flatMap fun y => encRow rgba8 (decRow bgra8 w (bmpScanRow file info y))⟩
+      else if (info.bpp = 4 ∧ info.compression = 2) ∨ (info.bpp = 8 ∧ info.compression = 1) then .err
+      else
+        -- palette and 15/16 bit rows are produced by the same row decoders as the full read
+        match bmpRead initPx file Settings.full none with
+        | .ok img => if dst = "rgba8" then .ok (flatOf rgba8 img) else .ok (flatOf rgb8 (mapImg dropAlpha img))
+        | .err => .err
+        | .ub => .ub
+  | "targa" =>
+    match tgaReadHeader file with
+    | none => .err
+    | some info =>
+      if info.colorMapType ≠ 0 ∨ info.imageType ≠ 2 ∨ info.colorMapLength ≠ 0 ∨ info.originBit then .err
+      else if info.bpp = 24 then
+        .ok ⟨info.width, info.height, (List.range info.height).flatMap fun y => encRow rgb8 (decRow bgr8 info.width (tgaScanRow file info y))⟩
+      else .ok ⟨info.width, info.height, (List.range info.height).flatMap fun y => encRow rgba8 (decRow bgra8 info.width (tgaScanRow file info y))⟩
+  | "pnm" =>
+    match pnmReadHeader file with
+    | none => .err
+    | some (info, data) =>
+      if info.type = 5 ∨ info.type = 6 then
+        .ok ⟨info.width, info.height, (List.range info.height).flatMap fun y => pnmScanRow data info y⟩
+      else if info.type = 4 then obsOfOpt bit8 (decodePnmMono file Settings.full)
+      else if info.type = 2 ∨ info.type = 1 then obsOfRes gray8 (pnmRead gray8 false true file Settings.full)
+      else obsOfRes rgb8 (pnmRead rgb8 true true file Settings.full)
+  | _ => .err
+
+def infoOf (fmt : String) (file : Bytes) : String :=
+  match fmt with
+  | "bmp" | "bmprle" => match bmpReadHeader file with
+    | some (info, _) => s!"{info.width} {info.height} {info.bpp}"
+    | none => "err:io"
+  | "targa" => match tgaReadHeader file with
+    | some info => s!"{info.width} {info.height} {info.bpp}"
+    | none => "err:io"
+  | "pnm" => match pnmReadHeader file with
+    | some (info, _) => s!"{info.width} {info.height} {info.type}"
+    | none => "err:io"
+  | _ => "err:io"
+
+def modelRaw (line : String) : String :=
+  match words line with
+  | ["crop", fmt, dst, tlx, tly, dx, dy, file] =>
+    match ints [tlx, tly, dx, dy] with
+    | some [tlx, tly, dx, dy] =>
+      let bs := parseHex file
+      let full := readNative fmt dst bs Settings.full
+      let sub := readNative fmt dst bs (settingsOf tlx.toNat tly.toNat dx.toNat dy.toNat)
+      "F " ++ full.show ++ " | fn " ++ sub.show ++ " | fp " ++ sub.show ++ " | is " ++ sub.show
+    | _ => "bad-op"
+  | ["paths", fmt, dst, file] =>
+    let bs := parseHex file
+    let img := readNative fmt dst bs Settings.full
+    let any := match anyType fmt bs with
+      | some t => (match readNative fmt t bs Settings.full with
+          | .ok f => t ++ " " ++ (Obs.ok f).show
+          | _ => "none err:io")
+      | none => "none err:io"
+    "img " ++ img.show ++ " | view " ++ img.show ++ " canary-ok | any " ++ any ++ " | scan " ++ (scanAll fmt dst bs).show ++ " | info " ++ infoOf fmt bs
+  | ["conv", fmt, nat, dst, tlx, tly, dx, dy, file] =>
+    match ints [tlx, tly, dx, dy], kindOf nat, kindOf dst with
+    | some [tlx, tly, dx, dy], some kn, some kd =>
+      let bs := parseHex file
+      let s := settingsOf tlx.toNat tly.toNat dx.toNat dy.toNat
+      let n := readNative fmt nat bs s
+      let r := match n with
+        | .ok f => Obs.ok (convertFlat kn kd f)
+        | o => o
+      let c := readConv fmt kd bs s
+      "nat " ++ n.show ++ " | conv " ++ c.show ++ " | ref " ++ r.show ++ " | cview " ++ c.show ++ " canary-ok"
+    | _, _, _ => "bad-op"
+  | ["small", fmt, dst, vw, vh, tlx, tly, dx, dy, file] =>
+    match ints [vw, vh, tlx, tly, dx, dy] with
+    | some [vw, vh, tlx, tly, dx, dy] =>
+      let bs := parseHex file
+      -- region size = dim (or the file's size when dim is 0), checked against the view before anything is read
+      match readNative fmt dst bs (settingsOf tlx.toNat tly.toNat dx.toNat dy.toNat) with
+      | .ok f => if viewAccepted vw.toNat vh.toNat f.w f.h then "ok canary-ok" else "err:io canary-ok"
+      | _ => "err:io canary-ok"
+    | _ => "bad-op"
+  | _ => "bad-op"
+
+/-- `bmprle` ops run in one child process: the first overrun ends the whole op -/
+def model (line : String) : String :=
+  let r := modelRaw line
+  if (words line).getD 1 "" = "bmprle" ∧ (words r).contains "ub" then "ub" else r
+
+/-! judge: the Spec on the implementation's observation -/
+
+def splitBars (ws : List String) : List (List String) :=
+  let rec go (acc : List String) (out : List (List String)) : List String → List (List String)
+    | [] => (acc.reverse :: out).reverse
+    | "|" :: r => go [] (acc.reverse :: out) r
+    | w :: r => go (w :: acc) out r
+  go [] [] ws
+
+def parseObs : List String → Option Obs
+  | ["err:io"] => some .err
+  | ["ub"] => some .ub
+  | [w, h, px] => match w.toNat?, h.toNat? with
+    | some w, some h => some (.ok ⟨w, h, parseHex px⟩)
+    | _, _ => none
+  | _ => none
+
+/-- crop of a flat image (the Spec's `crop`) -/
+def cropFlat (nch : Nat) (tlx tly dx dy : Nat) (f : Flat) : Flat :=
+  let dx := if dx = 0 then f.w else dx
+  let dy := if dy = 0 then f.h else dy
+  let rows := chunk (f.w * nch) f.h f.px
+  let rows := (rows.drop tly).take dy
+  ⟨dx, dy, rows.flatMap fun r => (r.drop (tlx * nch)).take (dx * nch)⟩
+
+def judge (op obs : String) : String :=
+  let fail (s : String) := "fail " ++ s
+  let parts := splitBars (words obs)
+  if words obs = ["ub"] then fail "read-undefined-behaviour" else
+  match words op with
+  | ["crop", _fmt, dst, tlx, tly, dx, dy, _file] =>
+    match ints [tlx, tly, dx, dy], parts with
+    | some [tlx, tly, dx, dy], [("F" :: f), ("fn" :: a), ("fp" :: b), ("is" :: c)] =>
+      match parseObs f, parseObs a, parseObs b, parseObs c with
+      | some (.ok full), some a, some b, some c =>
+        let want := Obs.ok (cropFlat (chanCount dst) tlx.toNat tly.toNat dx.toNat dy.toNat full)
+        if a = .ub ∨ b = .ub ∨ c = .ub then fail "sub-rectangle-read-undefined-behaviour"
+        else if a ≠ want then fail "sub-rectangle-is-crop-of-full-read"
+        else if b ≠ a ∨ c ≠ a then fail "devices-agree"
+        else "ok"
+      | some .err, some a, some b, some c =>
+        -- a file the full read rejects must be rejected by every other way of reading it
+        if a = .err ∧ b = .err ∧ c = .err then "ok" else fail "devices-agree"
+      | _, _, _, _ => fail ("unreadable-observation:" ++ (obs.take 60).toString)
+    | _, _ => fail ("shape:" ++ (obs.take 60).toString)
+  | ["paths", fmt, dst, _file] =>
+    match parts with
+    | [("img" :: i), ("view" :: v), ("any" :: anyT :: an), ("scan" :: sc), ("info" :: inf)] =>
+      let canary := v.getLast?
+      match parseObs i, parseObs v.dropLast, parseObs an, parseObs sc with
+      | some img, some view, some any, some scan =>
+        if canary ≠ some "canary-ok" then fail "write-outside-destination-view"
+        else if view ≠ img then fail "read_view-equals-read_image"
+        else if (anyT = dst ∧ any ≠ img) then fail "any_image-equals-read_image"
+        else if (anyT = "none" ∧ img ≠ .err ∧ dst ≠ "gray1") then fail "any_image-reads-the-file"
+        else if (scan ≠ .err ∧ scan ≠ img ∧ img ≠ .err) then fail "scanline-rows-equal-full-read"
+        else
+          match img, inf with
+          | .ok f, [w, h, d] =>
+            if w.toNat? ≠ some f.w ∨ h.toNat? ≠ some f.h then fail "info-dimensions"
+            else if (fmt = "targa" ∨ ((fmt = "bmp" ∨ fmt = "bmprle") ∧ (d = "24" ∨ d = "32"))) ∧ d.toNat? ≠ some (8 * chanCount dst) then fail "info-depth"
+            else "ok"
+          | .ok _, _ => fail "info-missing"
+          | _, _ => "ok"
+      | _, _, _, _ => fail ("unreadable-observation:" ++ (obs.take 60).toString)
+    | _ => fail ("shape:" ++ (obs.take 60).toString)
+  | ["conv", _fmt, _nat, _dst, _tlx, _tly, _dx, _dy, _file] =>
+    match parts with
+    | [("nat" :: _), ("conv" :: c), ("ref" :: r), ("cview" :: cv)] =>
+      match parseObs c, parseObs r, parseObs cv.dropLast with
+      | some c, some r, some cv' =>
+        if cv.getLast? ≠ some "canary-ok" then fail "write-outside-destination-view"
+        else if c ≠ r then fail "read_and_convert-equals-color_convert-of-native-read"
+        else if cv' ≠ r then fail "read_and_convert_view-equals-color_convert-of-native-read"
+        else "ok"
+      | _, _, _ => fail ("unreadable-observation:" ++ (obs.take 60).toString)
+    | _ => fail ("shape:" ++ (obs.take 60).toString)
+  | ["small", _fmt, _dst, _vw, _vh, _tlx, _tly, _dx, _dy, _file] =>
+    match words obs with
+    | [r, canary] =>
+      if canary ≠ "canary-ok" then fail "write-outside-destination-view"
+      else if r ≠ "err:io" then fail "too-small-view-rejected"
+      else "ok"
+    | _ => fail ("shape:" ++ (obs.take 60).toString)
+  | _ => fail "bad-op"
+
+def main (args : List String) : IO UInt32 := Driver.main' model judge args
